@@ -294,7 +294,9 @@ def g_text(rng, n):
             elif ch == 'quoted': t = '"' + p.replace('"', '') + '"'
             elif ch == 'legendname': t = '{a}\n# Legend:\n' + p + ' = {fill:red}'
             elif ch == 'legenddecl': t = '+--+\n|{a}\n+--+\n# Legend:\na = {' + p.replace('{', '').replace('}', '') + '}'
-            else: t = '+------------------------------+\n| {' + p + '} |\n+------------------------------+'
+            else:
+                inner = '{' + p.replace('\n', ' ') + '}'; w = len(inner) + 2
+                t = '+' + '-' * w + '+\n| ' + inner + ' |\n+' + '-' * w + '+'
         elif kind == 'rowtext':
             n1 = rng.randint(1, 7)
             row = ''.join(rng.choice(alpha_txt + [' ', ' ']) for _ in range(n1))
